@@ -530,6 +530,16 @@ func (x *Exec) buildReplay(prop string, o *Obligation, work string, timeout int)
 	var oldStmts []string
 	if o.Kind == "ensures" && o.Text != "" {
 		clauseExpr, oldStmts, evaluable = clauseToGo(o.Text)
+		if evaluable && fr.contract != nil {
+			if e, err := parser.ParseExpr(o.Text); err == nil {
+				free := freeIdents(e)
+				for _, g := range fr.contract.Ghosts {
+					if free[g.Ghost] {
+						evaluable = false // ghost state does not exist at run time
+					}
+				}
+			}
+		}
 	}
 	for _, s := range oldStmts {
 		body.WriteString(s + "\n_ = " + strings.SplitN(s, " ", 2)[0] + "\n")
